@@ -218,7 +218,11 @@ AbsMapOp(e, A, A2, ph) ==
                       /\ e.pn = "")
     [] e.op \in {"par_drain", "into_par_iter"} ->
          LET AY == {<<z[1], z[2], z[3], z[4]>> : z \in A}
-         IN IF e.n = 0
+         IN IF e.n = 2
+            THEN \* a consumer that panics on class k: every element is still consumed or dropped exactly once and the
+                 \* collection ends up empty and usable (RawParDrain's guard)
+                 AR({}, AllIds(A), e.pn = (IF Has(A, e.k) THEN "consumer" ELSE ""))
+            ELSE IF e.n = 0
             THEN AR({}, {}, /\ NoDupSeq(e.y) /\ SeqToSet(e.y) = AY /\ e.r = <<Cardinality(A)>> /\ e.pn = "")
             ELSE \* short-circuiting consumer: what it did not return is dropped exactly once
                  IF Len(e.y) = 1 /\ e.y[1] \in AY /\ e.y[1][1] = e.k
